@@ -120,6 +120,12 @@ pub fn palette_chunk(pal: &std::collections::BTreeMap<u32, PalEntryM>, rng: &mut
 }
 
 pub fn ignorable_chunk(rng: &mut Rng) -> ChunkSpec {
+    if rng.chance(1, 6) {
+        // the same kinds with realistic larger payloads (a 64x32 mask bitmap, a long path)
+        let ty = *rng.pick(&[0x2016u16, 0x2017, 0x2006]);
+        let n = *rng.pick(&[100usize, 129, 200, 276, 400]);
+        return ChunkSpec::Ignorable { ty, data: rng.bytes(n) };
+    }
     match rng.below(5) {
         0 => ChunkSpec::CelExtra,
         1 => ChunkSpec::Mask,
